@@ -14,7 +14,7 @@ FN = ['parsePkgLength', 'parseNumConstant', 'parseString', 'parseNameString', 'n
 class C12(flow.Spec):
     prop = 'C12'
     props_files = ['theories/Props/C12.v', 'theories/Props/C12_examples.v']
-    model_targets = ['theories/Aml/RunC12.vo']
+    model_targets = ['theories/Aml/RunC12.vo', 'theories/Aml/ParserProofsTop.vo']
     pkg = 'device/acpi/aml'
     harness = [os.path.join(H, 'zz_verif_c12_test.go'), os.path.join(H, 'zz_verif_amlcommon_test.go')]
     test = 'TestVerifC12$'
@@ -27,8 +27,21 @@ class C12(flow.Spec):
             'non-trivial = parse case with at least 4 bytes or lexer case with a non-empty token; distinct = distinct inputs')
     assumptions = ['kfmt.Fprintf of diagnostics to the error writer is not modelled (the harness passes a discarding writer)',
                    'header.Length equals the length of the mapped table (validated by the ACPI table loader, property C14)',
-                   'tables are smaller than 2^32 bytes (the length field is a uint32)']
-    partial = []
+                   'tables are smaller than 2^32 - 2048 bytes (payload_ok / no_wrap: within 1 KiB of 4 GiB the uint32 end-offset computation of '
+                   'parseNameString can wrap around)',
+                   'the object pool is the list-based model of Aml/Tree.v (C13); model runs of the 8.6 KB DSDT are quadratic, so most of its '
+                   'mutations are checked by the monitors only (case kind 2)']
+    partial = ['C12_parse_total_partial_slices / _reader: of the full statement C12_full_parse_total (kept in Props/C12.v) the conjunct '
+               '"every []byte of the pool lies inside its table" and the reader invariant are PROVED for all passes of ParseAML and all inputs; '
+               'NOT proved: that the outcome is never Panic / OutOfFuel with the linear fuel (no crash, termination within 64 + 8*len steps of '
+               'recursion depth) and that the resulting pool satisfies C13\'s tree relation R - these are covered by the correspondence of the '
+               'extracted model (explicit Panic / OutOfFuel outcomes, all passes modelled) with the real parser and by the harness monitors '
+               '(outcome class, watchdog, independent link checker, PrettyPrint)',
+               'layers 1-2 are complete: C12_reader_safe and C12_lex_slices_inside are full (totality, no read at or beyond pkgEnd, slices inside)',
+               'modelled passes (Aml/Parser.v): init, parseObjectList / parseNextObject / parseObjectArgs / parseArgs / parseArg / '
+               'parseNamePathOrMethodCall / parseStrictTermArg / parseSimpleArg / parseTarget / parseFieldElements / parseByteList, '
+               'connectNamedObjArgs, mergeScopeDirectives + relocateNamedObjects loop (maxResolvePasses), parseDeferredBlocks, resolveMethodCalls, '
+               'connectNonNamedObjArg(s), attachSiblingsAsArgs - i.e. all of ParseAML']
 
     def gen_cases(self, rng, tier):
         n_lex = {'quick': 1400, 'thorough': 40000, 'search': 3000}[tier]
